@@ -42,7 +42,16 @@ def check(m, run):
     def okp(*prefixes):
         sel = [o for o in sem if o.rule.startswith(prefixes)]
         return bool(sel) and all(o.ok for o in sel)
-    gd1(m, run)
+    # what the knot vector setters accept is decided by interpreting them on objects of the real classes (GD3); the rules that read how
+    # each setter spells its check / store / delegation corroborate (who else may store a knot vector stays a who-may-write rule)
+    n_gd = len(run.obs)
+    try:
+        _sd3.gd3(m, run)
+    except AnalysisError as ex:
+        run.error(str(ex))
+    gd_ok = len(run.obs) > n_gd and all(o.ok for o in run.obs[n_gd:])
+    with run.corroborating(gd_ok, 'GD3', rules=('GD1.check-dominates-store',), only=lambda o: o.rule != 'GD1.no-foreign-store'):
+        gd1(m, run)
     with run.corroborating(okp('OT3'), 'OT3', rules=('KC1.check-structure',)):
         kc1(m, run)
     ly4(m, run)
